@@ -151,6 +151,38 @@ func extractStore() {
 		layout("indexAddIntoSubBucket", count(cs, "putHeaderEntryInBucket") == 1 && count(cs, "rootBucket.NestedReadWriteBucket") == 1 &&
 			count(cs, "rootBucket.Put") == 1 && tipOnly && strings.Contains(squeeze(src(fd.Body)), "prefix:=header.hash[0:numSubBucketBytes]"),
 			"addHeaders: every entry goes into the sub-bucket named by the hash prefix; the root bucket only receives the tip key")
+		// the whole batch, tip included, is ONE transaction: exactly one walletdb.Update reachable from addHeaders
+		// (helpers of the same file followed), not inside a loop, and the tip key is put inside that transaction
+		nUpd, inLoop := 0, false
+		var walk func(n ast.Node, loop bool, depth int)
+		walk = func(n ast.Node, loop bool, depth int) {
+			ast.Inspect(n, func(m ast.Node) bool {
+				switch x := m.(type) {
+				case *ast.ForStmt:
+					walk(x.Body, true, depth)
+					return false
+				case *ast.RangeStmt:
+					walk(x.Body, true, depth)
+					return false
+				case *ast.CallExpr:
+					name := src(x.Fun)
+					if name == "walletdb.Update" || strings.HasSuffix(name, ".db.Update") {
+						nUpd++
+						if loop {
+							inLoop = true
+						}
+					} else if strings.HasPrefix(name, "h.") && depth < 3 {
+						if hd := funcDecl(fIndex, "headerIndex", strings.TrimPrefix(name, "h.")); hd != nil {
+							walk(hd.Body, loop, depth+1)
+						}
+					}
+				}
+				return true
+			})
+		}
+		walk(fd.Body, false, 0)
+		layout("indexAddOneTransaction", nUpd == 1 && !inLoop && count(cs, "rootBucket.Put") == 1,
+			"addHeaders: the entries of a batch and the new tip are written by exactly one database transaction (no loop over transactions)")
 	} else {
 		fail("headerfs/index.go: headerIndex.addHeaders")
 	}
